@@ -59,6 +59,7 @@ def _values(dom, cid=None):
 def fresh_process(cid, root, name='store'):
     e = dict(os.environ)
     e['PYTHONDONTWRITEBYTECODE'] = '1'
+    e['PYTHONHASHSEED'] = '4711'      # another process is another hash seed: what is found on disk must not depend on it
     pp = [VERIF] + ([os.environ['KLEPTO_REPO']] if os.environ.get('KLEPTO_REPO') else [])
     e['PYTHONPATH'] = os.pathsep.join(([os.environ['KLEPTO_REPO']] if os.environ.get('KLEPTO_REPO') else []) + [VERIF])
     p = subprocess.run([sys.executable, '-m', 'bounded.archive_read', cid, root, name], cwd=VERIF, env=e, capture_output=True, text=True, timeout=300)
